@@ -73,6 +73,8 @@ BitsQ == {0, 1, 8, 24, 31, 32}
 BitsT == {0, 1, 7, 8, 9, 15, 16, 17, 23, 24, 25, 31, 32}
 MFlags1(lazy) == {WildSet(ExactTCP, W) : W \in {X \in SUBSET FlagFields : Cardinality(X) <= 1}}
 MFlags2(lazy) == {WildSet(ExactTCP, W) : W \in {X \in SUBSET FlagFields : Cardinality(X) <= 2}}
+\* ... and the other end: all but at most n fields wildcarded
+MFlagsCo(n) == {WildSet(ExactTCP, FlagFields \ W) : W \in {X \in SUBSET FlagFields : Cardinality(X) <= n}}
 MFlagsAll(lazy) == {WildSet(ExactTCP, W) : W \in SUBSET FlagFields}
 MBits(B) == {WithBits(ExactTCP, sb, db) : sb \in B, db \in B}
              \cup {WithBits(ARP, sb, db) : sb \in B, db \in {0, 32}}
